@@ -476,6 +476,7 @@ func Shapes(thorough bool) []shape.Shape {
 		mk(with(func(s *Spec) { s.CertBlob = 24 }), "existing-cert-table-arbitrary-24", false),
 		mk(with(func(s *Spec) { s.CertBlob = 21; s.Overlay = 3 }), "existing-cert-table-arbitrary-21-after-overlay-3", false),
 		mk(with(func(s *Spec) { s.LastShort = 1 }), "last-section-truncated-1", false),
+		mk(with(func(s *Spec) { s.Lfanew = 8192 }), "dos-stub-8KiB", false),
 		mk(with(func(s *Spec) { s.Lfanew = 32768 - 88 }), "dos-stub-32KiB-checksum-field-at-32768", false),
 		mk(with(func(s *Spec) { s.Lfanew = 32768 - 88 - 2 }), "dos-stub-32KiB-checksum-field-at-32766", false),
 		mk(with(func(s *Spec) { s.Machine = 0xaa64 }), "machine-arm64", true),
